@@ -344,6 +344,8 @@ fn run(ctx: &mut Ctx) {
             continue;
         }
         let cases: Vec<Case> = ks.iter().map(|&k| gen_case(seed, shard, k)).collect();
+        // a batch announces several cases at once; count each of them as an evaluation
+        ctx.evaluations += cases.len().saturating_sub(1) as u64;
         let parent: Vec<Result<Value, _>> = cases
             .iter()
             .map(|c| guarded(|| text_view(&build_from_instructions(&c.items))))
